@@ -19,9 +19,12 @@ META = dict(
           "runtime_error, out_of_range, logic_error, a non-std type, eval_error, Boxed_Value); result, output, callback log, the Stack_Holder's shape read "
           "through the hook, and the surviving top-level names must equal the model's; independently of the model the shape must be the resting shape, no "
           "saved parameters may remain, inner declarations must be gone and the engine must still evaluate. A third induction [run_pframe] shows that an evaluation changes at most the last entry of call_params and, started outside any call, leaves it "
-          "as it was or empty: from a state at rest nothing stays saved [saved_parameters_frame, saved_parameters_released_at_rest]."),
+          "as it was or empty: from a state at rest nothing stays saved [saved_parameters_frame, saved_parameters_released_at_rest]. The RAII discipline the model "
+          "assumes is read off the source on every run (extract/e_raii.py -> Gen/Raii.lean): every call of a Stack_Holder push / pop primitive sits in the constructor / "
+          "destructor of a guard struct [raii_primitives_only_in_guards], and for every AST node class the model covers the guard objects it constructs are exactly the "
+          "combinators `run` uses [guards_as_modelled]."),
     note=("Trusted: Lean kernel, the evaluator model Model/Chai (hand-written from chaiscript_eval.hpp; RAII is modelled by combinators), gen/progs.py, "
-          "harness/evalprog.cpp, hook commit (friend Access). Classes/methods, maps, ranged-for and bind are not in the model yet."),
+          "harness/evalprog.cpp, hook commit (friend Access), extract/e_raii.py (a syntactic census: guard objects constructed per class, in textual order, not the control flow around them). Classes/methods, maps, ranged-for and bind are not in the model yet."),
     design_ref="DESIGN.md §6 C09")
 
 KINDS = ["runtime", "range", "std", "nonstd", "eval", "boxed"]
@@ -73,6 +76,9 @@ def top_level_names(src):
 
 
 def run(ctx):
+    sys.path.insert(0, os.path.join(C.VERIF, "extract"))
+    import e_raii
+    C.run_extractor(ctx, "raii", e_raii, "Raii.lean")
     status, text, rc = C.lean_obligations(ctx, ["C09"])
     have_driver = (rc == 0 and os.path.exists(C.driver_path())) or C.ensure_driver(ctx, [])
     with ctx.timer("harness_build"):
